@@ -229,7 +229,7 @@ def impl(c):
     # (query and form carrying DIFFERENT values of one parameter is read differently by Flask — query first — and by the core / Django
     #  wrappers — form first; the property does not say which, so that placement is exercised on the core server only)
     if not c.get("warmup") and c.get("place") != "both":
-        for fw in ("flask", "django"):
+        for fw in ("flask", "django", "flask-lazy"):
             o = impl_one(c, fw)
             if o != base:
                 out["differs:" + fw] = o
@@ -283,7 +283,7 @@ def oracle(c, out):
     if c["grant"] == "history":
         return oracle_history(c, out)
     v = oracle_one(c, {k: x for k, x in out.items() if not k.startswith("differs:")})
-    for fw in ("flask", "django"):
+    for fw in ("flask", "django", "flask-lazy"):
         if "differs:" + fw in out:
             v += [(f"[{fw} integration] " + what, dict(sig, fw=fw)) for what, sig in oracle_one(c, out["differs:" + fw])]
     return v
